@@ -952,3 +952,21 @@ refactor("c11-range-assign-string-bytes-loop",
               "                                chars.push(value::new_str(vec![*c]));\n"
               "                            }\n")],
          note="byte-wise split written as a loop")
+
+SC = "src/lexer/scanner.rs"
+mutant("c09-scanner-folds-crlf",
+       [(SC, "        if let Some((i, c)) = self.chars.next() {\n",
+             "        if let Some((i, mut c)) = self.chars.next() {\n            if c == '\\r' && self.chars.as_str().starts_with('\\n') {\n                self.chars.next();\n                c = '\\n';\n            }\n")],
+       [("C09", "R09.6"), ("C15", "R15.5")], note="CR LF presented as one `\\n` (seeded C09-f)")
+mutant("c09-scanner-tab-to-space",
+       [(SC, "            self.cur_char = Some(c);\n",
+             "            self.cur_char = Some(if c == '\\t' { ' ' } else { c });\n")],
+       [("C09", "R09.6"), ("C15", "R15.5")], note="tabs normalised to spaces, also inside string literals")
+refactor("c09-scanner-binds-char-through-local",
+         [(SC, "            self.cur_char = Some(c);\n",
+               "            let next = c;\n            self.cur_char = Some(next);\n")],
+         note="the stored character passes through another local")
+mutant("c17-slot-error-flattened-to-string",
+       [(E, "                    Error::InterpolateStringEvalExprFailed{\n                        source: Box::new(e),\n                    },",
+            "                    Error::InterpolateStringParseFailed{\n                        source_str: e.to_string(),\n                    },")],
+       [("C17", "L8")], note="a slot's evaluation error stored as text in another error (seeded C17-f, without the new variant)")
